@@ -1,5 +1,6 @@
 import CV.Proofs.RangeDecTotal
 import CV.Proofs.RangeTableModel
+import CV.Proofs.RangeBatch
 /-!
 # C02 — Range coder round trip (component `range`)
 
@@ -89,6 +90,47 @@ theorem C02_range_seal_point {c : Cfg} (hc : RValid c) {st : RangeSpec.St} (hI :
     pre c.W (RangeSpec.sealWords c.W c.S st) (st.m + nW c) - st.Lo < 2^(c.S - c.W) :=
   seal_contains hc hI
 
+/-- **batch form = per-symbol loop** (`encode_symbols`, `try_encode_symbols` on `Ok` items): same
+    encoder afterwards, same result — for every encoder state and every list of pairs, including
+    lists on which some symbol is impossible -/
+theorem C02_range_encodeSymbols_batch_eq_perSymbolLoop {Sym : Type} (c : Cfg)
+    (items : List (Sym × Model Sym)) (e : Encoder) :
+    encodeSymbols c e (items.map some) =
+      ((perSymbolLoop c e items).1,
+        match (perSymbolLoop c e items).2 with
+        | .ok () => .ok ()
+        | .error err => .error (.coding err)) :=
+  encodeSymbols_eq_perSymbolLoop c items e
+
+/-- `encode_iid_symbols` likewise -/
+theorem C02_range_encodeIidSymbols_batch_eq_perSymbolLoop {Sym : Type} (c : Cfg) (m : Model Sym)
+    (syms : List Sym) (e : Encoder) :
+    encodeIidSymbols c e m syms =
+      ((perSymbolLoop c e (syms.map (fun s => (s, m)))).1,
+        match (perSymbolLoop c e (syms.map (fun s => (s, m)))).2 with
+        | .ok () => .ok ()
+        | .error err => .error (.coding err)) :=
+  encodeIidSymbols_eq_perSymbolLoop c m syms e
+
+/-- `decode_symbols` / `try_decode_symbols` (on `Ok` items) / `decode_iid_symbols`: the symbols
+    obtained, the decoder afterwards and the result are those of the per-symbol loop -/
+theorem C02_range_decodeSymbols_batch_eq_perSymbolLoop {Sym : Type} (c : Cfg)
+    (models : List (Model Sym)) (d : Decoder) :
+    decodeSymbols c d (models.map some) [] =
+      ((perSymbolDecLoop c d models []).1, (perSymbolDecLoop c d models []).2.1,
+        match (perSymbolDecLoop c d models []).2.2 with
+        | .ok () => .ok ()
+        | .error err => .error (.coding err)) :=
+  decodeSymbols_eq_perSymbolLoop c models d []
+
+/-- a batch on which every call succeeds is the message-level encoder of the round-trip theorem -/
+theorem C02_range_batch_eq_encodeMsg {Sym : Type} (c : Cfg) (items : List (Sym × Model Sym))
+    (e : Encoder) (h : (perSymbolLoop c e items).2 = .ok ()) :
+    encodeMsg (cfgAt c c.B c.P) e
+        (items.map (fun x => { B := c.B, P := c.P, model := x.2, sym := x.1 }))
+      = .ok (perSymbolLoop c e items).1 :=
+  encodeSymbols_eq_encodeMsg c items e h
+
 /-! non-vacuity: `RangeEncoder<u8,u16>`, a five-symbol message with four different models and
 three different precisions that passes through the inverted situation and resolves it with a
 carry (`126 → 127`) -/
@@ -100,6 +142,9 @@ example : encodeMsg exCfg (Encoder.empty exCfg) (exMsg.take 2) = .ok exInverted 
 example : Inv exCfg exInverted := exInverted_inv
 example : sealedWords exCfg exMsg = some [127, 29, 86] := ex_sealed
 example : decodedSyms exCfg [127, 29, 86] exMsg = some [1, 1, 2, 0, 1] := ex_decoded
+example : (encodeSymbols exCfg (Encoder.empty exCfg)
+    [some (1, cutModel 127 129 256), some (7, cutModel 127 129 256), some (1, cutModel 100 200 256)]).2
+    = .error (.coding .impossible) := by decide
 
 end CV.Range
 
@@ -109,3 +154,7 @@ end CV.Range
 #print axioms CV.Range.C02_range_roundtrip
 #print axioms CV.Range.C02_range_roundtrip_tables
 #print axioms CV.Range.C02_range_seal_point
+#print axioms CV.Range.C02_range_encodeSymbols_batch_eq_perSymbolLoop
+#print axioms CV.Range.C02_range_encodeIidSymbols_batch_eq_perSymbolLoop
+#print axioms CV.Range.C02_range_decodeSymbols_batch_eq_perSymbolLoop
+#print axioms CV.Range.C02_range_batch_eq_encodeMsg
